@@ -23,10 +23,10 @@ import (
 	"seehuhn.de/go/pdf/font/mapping"
 	"verif/sim/core"
 	"verif/sim/gen"
+	"verif/sim/props/c18doc"
 	"verif/sim/simdisk"
 	"verif/sim/simsched"
 	"verif/sim/tape"
-	"verif/sim/wprog"
 )
 
 func init() {
@@ -59,106 +59,6 @@ type ValA struct {
 type ValB struct {
 	Serial int
 	Desc   string
-}
-
-type docInfo struct {
-	password string
-	image    []byte
-	dicts    []pdf.Reference // mutually referential dictionaries
-	chain    []pdf.Reference // chain[0] -> chain[1] -> dicts[0]
-	streams  []pdf.Reference
-	bodies   map[pdf.Reference][]byte
-	want     map[pdf.Reference]pdf.Object // expected Get results (streams: dict)
-	chains   map[pdf.Reference][]pdf.Reference
-}
-
-func buildDoc(t *tape.Tape) (*docInfo, error) {
-	d := &docInfo{bodies: map[pdf.Reference][]byte{}, want: map[pdf.Reference]pdf.Object{}, chains: map[pdf.Reference][]pdf.Reference{}}
-	disk := simdisk.NewDisk()
-	version := tape.Pick(t, "doc.version", pdf.V1_7, pdf.V1_4, pdf.V2_0, pdf.V1_1, pdf.V1_6)
-	opt := &pdf.WriterOptions{HumanReadable: t.Bool("doc.human", 1, 4)}
-	if t.Bool("doc.encrypt", 1, 3) {
-		// every cipher the Writer selects: RC4-40 (1.1), RC4-128 (1.4), AES-128 (1.6, 1.7), AES-256 (2.0)
-		d.password = "secret"
-		opt.UserPassword = d.password
-		opt.UserPermissions = pdf.PermAll
-	}
-	var w *pdf.Writer
-	var err error
-	wprog.WithSeededRand(t.Sub("doc.rand"), func() {
-		w, err = pdf.NewWriter(disk.Sink(simdisk.AppendOnly), version, opt)
-	})
-	if err != nil {
-		return nil, err
-	}
-	n := 2 + t.Draw("doc.ndicts", 3)
-	for i := 0; i < n; i++ {
-		d.dicts = append(d.dicts, w.Alloc())
-	}
-	c1, c2 := w.Alloc(), w.Alloc()
-	d.chain = []pdf.Reference{c1, c2}
-	var compRefs []pdf.Reference
-	var compObjs []pdf.Object
-	for i, ref := range d.dicts {
-		obj := pdf.Dict{"Val": pdf.Integer(i), "Next": d.dicts[(i+1)%n], "Name": pdf.String(fmt.Sprintf("dict %d", i))}
-		d.want[ref] = obj
-		if i > 0 && t.Bool(fmt.Sprintf("doc.comp%d", i), 1, 3) {
-			compRefs = append(compRefs, ref)
-			compObjs = append(compObjs, obj)
-		} else if err := w.Put(ref, obj); err != nil {
-			return nil, err
-		}
-	}
-	if len(compRefs) > 0 {
-		if err := w.WriteCompressed(compRefs, compObjs...); err != nil {
-			return nil, err
-		}
-	}
-	if err := w.Put(c1, c2); err != nil {
-		return nil, err
-	}
-	if err := w.Put(c2, d.dicts[0]); err != nil {
-		return nil, err
-	}
-	d.want[c1] = c2
-	d.want[c2] = d.dicts[0]
-	ns := 1 + t.Draw("doc.nstreams", 3)
-	st := t.Sub("doc.bodies")
-	for i := 0; i < ns; i++ {
-		ref := w.Alloc()
-		body := make([]byte, 200+st.Intn(3000))
-		for k := range body {
-			body[k] = byte('a' + (k*7+i*13+st.Intn(2))%23)
-		}
-		filters := []pdf.Filter{pdf.FilterCompress{}}
-		if i == 1 {
-			filters = []pdf.Filter{pdf.FilterASCIIHex{}, pdf.FilterCompress{}}
-		}
-		ws, err := w.OpenStream(ref, pdf.Dict{"Idx": pdf.Integer(i)}, filters...)
-		if err != nil {
-			return nil, err
-		}
-		ws.Write(body)
-		if err := ws.Close(); err != nil {
-			return nil, err
-		}
-		d.streams = append(d.streams, ref)
-		d.bodies[ref] = body
-		d.want[ref] = pdf.Dict{"Idx": pdf.Integer(i)}
-	}
-	pages := w.Alloc()
-	w.Put(pages, pdf.Dict{"Type": pdf.Name("Pages"), "Kids": pdf.Array{}, "Count": pdf.Integer(0)})
-	w.GetMeta().Catalog.Pages = pages
-	if err := w.Close(); err != nil {
-		return nil, err
-	}
-	d.image = disk.Data
-	for _, ref := range d.dicts {
-		d.chains[ref] = []pdf.Reference{ref}
-	}
-	d.chains[c2] = []pdf.Reference{c2, d.dicts[0]}
-	d.chains[c1] = []pdf.Reference{c1, c2, d.dicts[0]}
-	return d, nil
 }
 
 // history operations for the linearizability check
@@ -318,7 +218,7 @@ func (g *yieldGetter) Get(ref pdf.Reference, canObjStm bool) (pdf.Native, error)
 type world struct {
 	e        *core.Env
 	s        *simsched.Sched
-	d        *docInfo
+	d        *c18doc.Info
 	r        *pdf.Reader
 	yg       *yieldGetter
 	xs       []*pdf.Extractor
@@ -366,7 +266,7 @@ func (w *world) decodeA(x int, nest bool, ran *bool, cand *int) func(pdf.Cursor,
 			if nref, isRef := dict["Next"].(pdf.Reference); isRef {
 				var nran bool
 				var ncand int
-				in := opIn{kind: "decode", x: x, chain: w.d.chains[nref], tp: "A"}
+				in := opIn{kind: "decode", x: x, chain: w.d.Chains[nref], tp: "A"}
 				call := w.tick()
 				tid := w.s.Current().ID
 				saved := w.yg.cnt[tid]
@@ -439,7 +339,7 @@ func (w *world) checkIdentity(k slotKey, serial int) {
 func (w *world) opDecode(tk int, x int, ref pdf.Reference, tp string, nest, exclusive, failCB bool) {
 	w.failNext[tk] = failCB
 	parkedBefore := w.s.ParkedOnChan(tk)
-	in := opIn{kind: "decode", x: x, chain: w.d.chains[ref], tp: tp}
+	in := opIn{kind: "decode", x: x, chain: w.d.Chains[ref], tp: tp}
 	var ran bool
 	var cand int
 	call := w.tick()
@@ -540,7 +440,7 @@ func (w *world) opGet(tk int, ref pdf.Reference) {
 		}
 		return
 	}
-	want := w.d.want[ref]
+	want := w.d.Want[ref]
 	if stm, ok := got.(*pdf.Stream); ok {
 		d := pdf.Dict{}
 		for k, v := range stm.Dict {
@@ -594,8 +494,8 @@ func (w *world) opStream(tk int, ref pdf.Reference) {
 	}
 	rc.Close()
 	w.note(tk, "stream(%s) %d bytes", ref, len(data))
-	if !bytes.Equal(data, w.d.bodies[ref]) {
-		w.fail("sequential-equivalence", map[string]string{"op": "stream"}, "concurrent DecodeStream(%s) yields %d bytes differing from the %d bytes written (first difference at %d)", ref, len(data), len(w.d.bodies[ref]), firstDiff(data, w.d.bodies[ref]))
+	if !bytes.Equal(data, w.d.Bodies[ref]) {
+		w.fail("sequential-equivalence", map[string]string{"op": "stream"}, "concurrent DecodeStream(%s) yields %d bytes differing from the %d bytes written (first difference at %d)", ref, len(data), len(w.d.Bodies[ref]), firstDiff(data, w.d.Bodies[ref]))
 	}
 }
 
@@ -685,7 +585,7 @@ func (w *world) opCMap(tk int, i int) {
 
 func Run(e *core.Env) {
 	t := e.T
-	d, err := buildDoc(t)
+	d, err := c18doc.Build(t)
 	if err != nil {
 		e.Skip("document rejected: " + err.Error())
 		return
@@ -700,7 +600,7 @@ func Run(e *core.Env) {
 		fail bool
 		n    int
 	}
-	all := append(append([]pdf.Reference(nil), d.dicts...), d.chain...)
+	all := append(append([]pdf.Reference(nil), d.Dicts...), d.Chain...)
 	plans := make([][]op, nTasks)
 	hot := all[t.Draw("hot", len(all))] // most operations aim at the same few references
 	var desc []string
@@ -718,7 +618,7 @@ func Run(e *core.Env) {
 				case 0:
 					return hot
 				case 1:
-					return d.chain[t.Draw(l+".chain", len(d.chain))]
+					return d.Chain[t.Draw(l+".chain", len(d.Chain))]
 				}
 				return all[t.Draw(l+".ref", len(all))]
 			}
@@ -736,9 +636,9 @@ func Run(e *core.Env) {
 			case 3:
 				o.kind, o.ref = "pair", pickRef()
 			case 4:
-				o.kind, o.ref = "get", append(all, d.streams...)[t.Draw(l+".gref", len(all)+len(d.streams))]
+				o.kind, o.ref = "get", append(all, d.Streams...)[t.Draw(l+".gref", len(all)+len(d.Streams))]
 			case 5:
-				o.kind, o.ref = "stream", d.streams[t.Draw(l+".sref", len(d.streams))]
+				o.kind, o.ref = "stream", d.Streams[t.Draw(l+".sref", len(d.Streams))]
 			case 6:
 				o.kind, o.n = "otherfile", t.Draw(l+".seed", 100)
 			default:
@@ -762,8 +662,8 @@ func Run(e *core.Env) {
 		sched = simsched.New(t)
 		sched.KeepTrace = e.KeepNotes()
 		w := &world{e: e, s: sched, d: d, returned: map[slotKey]map[int]bool{}, exclRun: map[slotKey]int{}, exclOK: map[slotKey]int{}, failNext: map[int]bool{}}
-		h := simdisk.NewHandle(d.image)
-		r, err := pdf.NewReader(h, int64(len(d.image)), &pdf.ReaderOptions{Password: d.password})
+		h := simdisk.NewHandle(d.Image)
+		r, err := pdf.NewReader(h, int64(len(d.Image)), &pdf.ReaderOptions{Password: d.Password})
 		if err != nil {
 			e.Skip("fault-free open failed: " + err.Error())
 			return
@@ -880,18 +780,18 @@ func uninstall() {
 // exactly between the cache misses and the publication of the first decode.
 var corners = map[string]func(e *core.Env){
 	"chain-decode-must-not-replace-cached-value": func(e *core.Env) {
-		d, err := buildDoc(tape.Replay(nil))
+		d, err := c18doc.Build(tape.Replay(nil))
 		if err != nil {
 			e.Skip(err.Error())
 			return
 		}
-		r, err := pdf.NewReader(simdisk.NewHandle(d.image), int64(len(d.image)), nil)
+		r, err := pdf.NewReader(simdisk.NewHandle(d.Image), int64(len(d.Image)), nil)
 		if err != nil {
 			e.Skip(err.Error())
 			return
 		}
 		x := pdf.NewExtractor(r)
-		c1, c2 := d.chain[0], d.chain[1]
+		c1, c2 := d.Chain[0], d.Chain[1]
 		serial := 0
 		plain := func(pdf.Cursor, pdf.Object, bool) (*ValA, error) { serial++; return &ValA{Serial: serial}, nil }
 		var other *ValA
@@ -914,18 +814,18 @@ var corners = map[string]func(e *core.Env){
 		}
 	},
 	"cache-hit-publishes-under-followed-references": func(e *core.Env) {
-		d, err := buildDoc(tape.Replay(nil))
+		d, err := c18doc.Build(tape.Replay(nil))
 		if err != nil {
 			e.Skip(err.Error())
 			return
 		}
-		r, err := pdf.NewReader(simdisk.NewHandle(d.image), int64(len(d.image)), nil)
+		r, err := pdf.NewReader(simdisk.NewHandle(d.Image), int64(len(d.Image)), nil)
 		if err != nil {
 			e.Skip(err.Error())
 			return
 		}
 		x := pdf.NewExtractor(r)
-		c1, c2 := d.chain[0], d.chain[1]
+		c1, c2 := d.Chain[0], d.Chain[1]
 		serial := 0
 		plain := func(pdf.Cursor, pdf.Object, bool) (*ValA, error) { serial++; return &ValA{Serial: serial}, nil }
 		v2, _ := pdf.Decode(pdf.CursorAt(x, nil), c2, plain) // caches under c2 and the object
